@@ -9,14 +9,14 @@ kf = json.load(open(kf_path))
 ids = sys.argv[1:] or sorted({f['property'] for f in kf['findings']})
 n = 0
 for pid in ids:
-    p = os.path.join(HERE, 'evidence', pid + '.json')
+    p = os.path.join(os.environ.get('PV_EVIDENCE_DIR') or os.path.join(HERE, 'evidence'), pid + '.json')
     if not os.path.exists(p):
         continue
     ev = json.load(open(p))
     counts = ev['coverage'].get('known_finding_counts') or {}
     for f in kf['findings']:
         if f['property'] == pid and f['status'] == 'open' and counts.get(f['key']) is not None:
-            f.setdefault('counts', {})[ev['tier']] = counts[f['key']]
+            f.setdefault('counts', {})[f"{ev['tier']}:{ev['seed']}"] = counts[f['key']]
             n += 1
 json.dump(kf, open(kf_path, 'w'), indent=1, ensure_ascii=False)
 print('recorded', n, 'counts')
